@@ -3,6 +3,7 @@ package main
 // C01 — CLI exchanges return exactly the device's output, aligned per command.
 
 import (
+	"go/types"
 	"fmt"
 	"go/token"
 	"strings"
@@ -94,16 +95,10 @@ func checkSendInputWorker(c *Ctx, r *Report) {
 		r.Anchor(rule, "(*channel.Channel).SendInputB")
 		return
 	}
-	var worker *ssa.Function
-	for _, a := range AnonFuncsDeep(fn) {
-		for _, ci := range callInstrs(a) {
-			if sc := ci.Common().StaticCallee(); sc != nil && sc.Name() == "WriteReturn" {
-				worker = a
-			}
-		}
-	}
+	wret := c.LookupFunc("channel", "Channel", "WriteReturn")
+	worker, named, why := sendInputWorker(c, fn, wret)
 	if worker == nil {
-		r.Unk(rule, "SendInputB worker", c.Pos(fn.Pos()), "no worker closure found")
+		r.Unk(rule, "SendInputB worker", c.Pos(fn.Pos()), "no worker closure found"+why)
 		return
 	}
 	paths := EnumeratePaths(c, worker, &dtConfig{IsAtomCall: func(call *ssa.Call) bool {
@@ -111,19 +106,47 @@ func checkSendInputWorker(c *Ctx, r *Report) {
 		return o != nil && o.Pkg() != nil && o.Pkg().Path() == "fmt"
 	}})
 	cK, inK, ctxK, opK := "local:captured:c", "local:captured:input", "local:captured:ctx", "local:captured:op"
+	if named {
+		// the exchange lives in a method the worker goroutine calls: its parameters play the captured variables' roles
+		// (sendInputWorker verified that the call site binds them to SendInputB's receiver, input, context and options)
+		cK, inK, ctxK, opK = "", "", "", ""
+		for _, prm := range worker.Params {
+			k := "param:" + prm.Name()
+			switch t := prm.Type().(type) {
+			case *types.Pointer:
+				if n, ok := t.Elem().(*types.Named); ok && n.Obj().Name() == "Channel" {
+					cK = k
+				} else if ok && n.Obj().Name() == "OperationOptions" {
+					opK = k
+				}
+			case *types.Slice:
+				inK = k
+			case *types.Named:
+				if isContextType(t) {
+					ctxK = k
+				}
+			}
+		}
+	}
 	n := 0
 	for _, p := range paths {
 		if p.Undecided != "" {
 			r.Unk(rule, "SendInputB worker paths", c.Pos(worker.Pos()), p.Undecided)
 			return
 		}
-		// success path: the result literal that is sent has err == nil
+		// success path: the result literal that is sent has err == nil (a named worker: returns a nil error)
 		success := false
 		var resB string
 		for k, v := range p.Locals {
 			if strings.HasSuffix(k, ".err") && v == "nil" {
 				success = true
 				resB = p.Locals[strings.TrimSuffix(k, ".err")+".b"]
+			}
+		}
+		if named {
+			success = len(p.Returns) == 2 && p.Returns[1] == "nil"
+			if success {
+				resB = p.Returns[0]
 			}
 		}
 		var ioCalls []string
@@ -256,6 +279,131 @@ func checkSendInputWorker(c *Ctx, r *Report) {
 		}
 		r.Check(ok, rule, "SendInput delegates", c.Pos(si.Pos()), "SendInputB([]byte(input), opts...)", "SendInput does not pass its input and options unchanged to SendInputB")
 	}
+}
+
+// sendInputWorker: the function that performs SendInputB's exchange: the worker closure that writes the return, or --
+// when the closure only calls a method of the same package and sends its two results on the result channel -- that
+// method (named=true), provided the call binds the method's parameters to SendInputB's own receiver, input bytes,
+// context and operation options.
+func sendInputWorker(c *Ctx, fn, wret *ssa.Function) (*ssa.Function, bool, string) {
+	if wret == nil {
+		return nil, false, ""
+	}
+	for _, a := range AnonFuncsDeep(fn) {
+		if len(staticCallsTo(a, wret)) > 0 {
+			return a, false, ""
+		}
+	}
+	origin := func(v ssa.Value) ssa.Value {
+		for i := 0; i < 6; i++ {
+			switch x := v.(type) {
+			case *ssa.FreeVar:
+				if b := freeVarBinding(x); b != nil {
+					v = b
+					continue
+				}
+			case *ssa.UnOp:
+				if a, ok := x.X.(*ssa.Alloc); ok && x.Op == token.MUL {
+					var only ssa.Value
+					n := 0
+					for _, ref := range *a.Referrers() {
+						if st, ok := ref.(*ssa.Store); ok && st.Addr == ssa.Value(a) {
+							only = st.Val
+							n++
+						}
+					}
+					if n == 1 {
+						v = only
+						continue
+					}
+				}
+				if fv, ok := x.X.(*ssa.FreeVar); ok && x.Op == token.MUL {
+					if b := freeVarBinding(fv); b != nil {
+						if a, ok := b.(*ssa.Alloc); ok {
+							var only ssa.Value
+							n := 0
+							for _, ref := range *a.Referrers() {
+								if st, ok := ref.(*ssa.Store); ok && st.Addr == ssa.Value(a) {
+									only = st.Val
+									n++
+								}
+							}
+							if n == 1 {
+								v = only
+								continue
+							}
+						}
+					}
+				}
+			}
+			break
+		}
+		return v
+	}
+	for _, a := range AnonFuncsDeep(fn) {
+		for _, ci := range callInstrs(a) {
+			call, ok := ci.(*ssa.Call)
+			h := ci.Common().StaticCallee()
+			if !ok || h == nil || h.Pkg != fn.Pkg || len(h.Blocks) == 0 || len(staticCallsTo(h, wret)) == 0 || h.Signature.Results().Len() != 2 {
+				continue
+			}
+			// argument binding
+			for i, prm := range h.Params {
+				if i >= len(call.Call.Args) {
+					return nil, false, ": helper call has too few arguments"
+				}
+				arg := origin(call.Call.Args[i])
+				okArg := true
+				switch t := prm.Type().(type) {
+				case *types.Pointer:
+					if n, isN := t.Elem().(*types.Named); isN && n.Obj().Name() == "Channel" {
+						okArg = arg == ssa.Value(fn.Params[0])
+					} else if isN && n.Obj().Name() == "OperationOptions" {
+						ex, isEx := arg.(*ssa.Extract)
+						okArg = false
+						if isEx && ex.Index == 0 {
+							if cl, isCall := ex.Tuple.(*ssa.Call); isCall && cl.Parent() == fn {
+								if sc := cl.Call.StaticCallee(); sc != nil && sc.Name() == "NewOperation" {
+									okArg = true
+								}
+							}
+						}
+					}
+				case *types.Slice:
+					okArg = arg == ssa.Value(fn.Params[1])
+				case *types.Named:
+					if isContextType(t) {
+						k, _ := ctxOrigin(call.Call.Args[i], 0)
+						okArg = k == "with-timeout"
+					}
+				}
+				if !okArg {
+					return nil, false, ": the exchange helper " + shortFn(h) + " is not called with SendInputB's own " + prm.Name()
+				}
+			}
+			// both results are sent on as they are
+			b, e := resultOf(call, 0), resultOf(call, 1)
+			sentB, sentE := false, false
+			allInstrs(a, func(in ssa.Instruction) {
+				if st, ok := in.(*ssa.Store); ok {
+					if fa, ok := st.Addr.(*ssa.FieldAddr); ok {
+						f := fieldOfAddr(fa)
+						if f != nil && f.Name() == "b" && st.Val == b {
+							sentB = true
+						}
+						if f != nil && f.Name() == "err" && st.Val == e {
+							sentE = true
+						}
+					}
+				}
+			})
+			if !sentB || !sentE {
+				return nil, false, ": the worker does not hand the results of " + shortFn(h) + " to the caller unchanged"
+			}
+			return h, true, ""
+		}
+	}
+	return nil, false, ""
 }
 
 func checkSendCommandOnce(c *Ctx, r *Report) {
